@@ -83,7 +83,7 @@ func init() {
 
 func init() {
 	Properties["C19"] = PropertySpec{
-		Rules: []string{"R-ORDER", "R-COMPONENT"},
+		Rules: []string{"R-ORDER", "R-COMPONENT", "R-SPECIAL"},
 		Explanation: "Soundness of the interval algebra with respect to point membership, decided exhaustively over the order types of the operands for the comparison-only code of r1.Interval and s1.Interval " +
 			"(abstract interpretation of the source over weak orderings), plus the component-wise composition of the rectangle operations.",
 		NotCovered: "Expanded, Project, Center, Length, ApproxEqual, chord-angle arithmetic and all of Cap (genuine arithmetic); s2.Rect operations with polar/antimeridian special cases beyond Contains/Intersects/Union.",
